@@ -299,6 +299,10 @@ static void encode_imm_non_data_transfer(struct instr *instrc) {
 }
 
 static void encode_imm_operation(struct instr *instrc) {
+  // the accumulator short forms only exist for a register destination, not
+  // for a memory operand whose base register happens to be rax
+  if (instrc->mem_disp)
+    return;
   // special case for the al register
   if ((instrc->opd[0].reg == al && instrc->cons != NEG64BIT &&
        instrc->cons != MAX_UNSIGNED_32BIT) ||
@@ -335,7 +339,7 @@ void encode_imm(struct instr *instrc) {
     if (IN_RANGE(instrc->cons, NEG32BIT + 1, NEG64BIT)) {
       DO_NOT_PAD(instrc->cons, instrc->reduced_imm, MAX_UNSIGNED_32BIT);
     }
-    if ((instrc->opd[0].reg & REG_MASK) == al)
+    if ((instrc->opd[0].reg & REG_MASK) == al && !instrc->mem_disp)
       instrc->key++;
     // 16 to 64 bit register and 8 bit immediate combination
   } else if (instrc->op_offset == 1 && !TYPE(instrc->key, DATA_TRANSFER)) {
